@@ -379,6 +379,71 @@ func runC02(e *sim.Env) {
 		}
 	}
 	e.Probes["linear_twins_built"] += twin.made
+
+	// stores initialised from a v2 checkpoint: one sees every submitted block
+	// that descends from the checkpoint, in submission order (forks and reorgs
+	// above it included), the other only the path to where the first ended
+	if lo := net.Require() + 1; tip.Height > lo+1 && e.Chance(1, 2) {
+		cp := tip.Ancestor(uint64(e.Range(int(lo), int(tip.Height)-1)))
+		if cp.Block.V2 != nil && cp.Valid() && cp.Parent != nil {
+			open := func() *chainSUT {
+				d := simdisk.New()
+				var cdbs *chain.DBStore
+				var cts consensus.State
+				var cerr error
+				e.Guard("C02.panic", "NewDBStoreAtCheckpoint", func() { cdbs, cts, cerr = chain.NewDBStoreAtCheckpoint(d, cp.Parent.L.State, cp.Block, nil) })
+				if cerr != nil {
+					e.Violationf("C02.checkpoint-store", "open", "NewDBStoreAtCheckpoint(%s) failed: %v", cp.Describe(), cerr)
+				}
+				if cts.Index != cp.Index() || !bytes.Equal(gen.StateBytes(cts), gen.StateBytes(cp.L.State)) {
+					e.Violationf("C02.checkpoint-store", "initial-state", "a store opened at checkpoint %s reports tip %v / a state that differs from the reference: %s", cp.Describe(), cts.Index, stateDiff(cts, cp.L.State))
+				}
+				crs := &recStore{DBStore: cdbs}
+				return &chainSUT{net: net, db: d, disk: d, store: crs, cm: chain.NewManager(crs, cts)}
+			}
+			a := open()
+			for _, batch := range plan {
+				var sub []*gen.Node
+				for _, n := range batch {
+					if n != cp && n.Height > cp.Height && cp.IsAncestorOf(n) {
+						sub = append(sub, n)
+					}
+				}
+				if len(sub) > 0 {
+					e.Guard("C02.panic", "AddBlocks (checkpoint store)", func() { a.cm.AddBlocks(blocksOf(sub)) })
+				}
+			}
+			at, ok := tree.ByID[a.cm.Tip().ID]
+			if !ok || !at.Valid() || !cp.IsAncestorOf(at) {
+				e.Violationf("C02.checkpoint-store", "tip", "a store opened at checkpoint %s ended on %v, which is not a valid descendant of the checkpoint", cp.Describe(), a.cm.Tip())
+			}
+			if ts := a.cm.TipState(); !bytes.Equal(gen.StateBytes(ts), gen.StateBytes(at.L.State)) {
+				e.Violationf("C02.checkpoint-store", "tip-state", "checkpoint store at %s: tip state differs from independent replay: %s", at.Describe(), stateDiff(ts, at.L.State))
+			}
+			b := open()
+			if at != cp {
+				var path []*gen.Node
+				for _, n := range at.PathFromGenesis() {
+					if n.Height > cp.Height {
+						path = append(path, n)
+					}
+				}
+				var lerr error
+				e.Guard("C02.panic", "AddBlocks (linear checkpoint store)", func() { lerr = b.cm.AddBlocks(blocksOf(path)) })
+				if lerr != nil {
+					e.Violationf("C02.checkpoint-store", "linear-rejected", "a checkpoint store rejected the valid chain %s -> %s: %v", cp.Describe(), at.Describe(), lerr)
+				}
+			}
+			va, vb := takeView(a, true), takeView(b, true)
+			if what, ok := vb.equal(va); !ok {
+				e.Violationf("C02.history-independent", "checkpoint-store:"+what, "a checkpoint store that saw forks above its checkpoint %s serves a different %s at %s than one that saw only the best chain: %s", cp.Describe(), what, at.Describe(), diffDetail(va, vb))
+			}
+			if a.store.reverts > 0 {
+				e.Probe("checkpoint_store_reorged")
+			}
+			e.Probe("checkpoint_store_compared")
+		}
+	}
 }
 
 // onlyExpiryOrder reports whether the two nodes differ in nothing but the
@@ -416,7 +481,7 @@ func onlyExpiryOrder(a, b *chainSUT, maxH uint64) bool {
 func init() {
 	register(&Prop{
 		ID: "C02", Run: runC02, Quick: 900, Thorough: 30000, Level: "exploration",
-		Rule:        "one run = drawn network + fork tree with every element-changing transaction kind + submission plan as in C01; after every step the node's served view (tip state, best index, blocks+supplements, states, raw element buckets, expiring lists, MainChain bucket) is compared with a linear twin node, with the view recorded the first time that tip was reached, and with the reference ledger (elements, leaf indices, Merkle proofs, block supplement); 80% of runs give every v1 contract a unique window end (order-safe), 20% stress several contracts per height; distinct = abstract trace (reorg depth bucket, regimes); non-trivial = at least one reorg reverting blocks",
+		Rule:        "one run = drawn network + fork tree with every element-changing transaction kind + submission plan as in C01; after every step the node's served view (tip state, best index, blocks+supplements, states, raw element buckets, expiring lists, MainChain bucket) is compared with a linear twin node, with the view recorded the first time that tip was reached, and with the reference ledger (elements, leaf indices, Merkle proofs, block supplement); in half of the runs that reach above the require height two stores are opened from a v2 checkpoint on the final chain (chain.NewDBStoreAtCheckpoint), one fed every submitted descendant of the checkpoint in submission order, one only the resulting best chain, and their views are compared; 80% of runs give every v1 contract a unique window end (order-safe), 20% stress several contracts per height; distinct = abstract trace (reorg depth bucket, regimes); non-trivial = at least one reorg reverting blocks",
 		Real:        []string{"chain.Manager", "chain.DBStore (node under test and linear twin)"},
 		Stub:        []string{"disk: simdisk.DB"},
 		Assumptions: []string{"Tree-bucket nodes above the current leaf count are not compared (documented as never read); every proof the store can serve is compared instead", "the order of the expiring lists of a linear node is taken as the consensus-relevant truth"},
